@@ -231,3 +231,12 @@ Fixpoint covered (e : expr) : bool :=
   | EJoin s es => covered s && forallb covered es
   | ESplitNth a sep _ _ => covered a && match sep with SepNone | SepDelim => true | _ => false end
   end.
+
+(* a text that is one String wrapped in any nesting of Text / Tag / HRef / Protected, each with that
+   single part: all its characters lie in one part, so no needle can span a part boundary *)
+Inductive chain : rt -> str -> Prop :=
+| ch_str s : chain (RStr s) s
+| ch_text q s : chain q s -> chain (RText [q]) s
+| ch_tag n q s : chain q s -> chain (RTag n [q]) s
+| ch_href u e q s : chain q s -> chain (RHRef u e [q]) s
+| ch_prot q s : chain q s -> chain (RProt [q]) s.
